@@ -95,6 +95,12 @@ pub assume_specification<T, E, F: FnOnce(E) -> T> [Result::<T, E>::unwrap_or_els
 pub assume_specification<T, E> [std::result::Result::<T, E>::unwrap_or] (r: std::result::Result<T, E>, d: T) -> (t: T)
     where E: std::marker::Destruct, T: std::marker::Destruct,
     ensures t == (match r { Ok(v) => v, Err(_) => d });
+// TRUSTED[option-or-else]: Option::or_else keeps a Some, otherwise returns what the closure returns (std doc).
+#[verifier::allow(undeclared_external_trait)]
+pub assume_specification<T, F> [std::option::Option::<T>::or_else] (o: std::option::Option<T>, f: F) -> (r: std::option::Option<T>)
+    where F: std::ops::FnOnce() -> std::option::Option<T> + std::marker::Destruct, T: std::marker::Destruct,
+    requires o is None ==> f.requires(()),
+    ensures o is Some ==> r == o, o is None ==> f.ensures((), r);
 // TRUSTED[bool-then-some]: bool::then_some(t) is Some(t) if the bool is true, None otherwise (std doc).
 pub assume_specification<T> [bool::then_some::<T>] (b: bool, t: T) -> (r: Option<T>)
     ensures r == (if b { Some(t) } else { None::<T> });
